@@ -34,7 +34,7 @@ pub fn generate_c16(seed: u64, thorough: bool, known: &HashSet<String>) -> Trace
     let mut uniq = 0u64;
     let mut steps = Vec::new();
     // order: set delete append set_range batch(write-only) batch(remove-only) batch(mixed) set_meta flush reopen reset init
-    let mut w: [u32; 12] = [10, 5, 6, 6, 3, 3, 1, 3, 3, 6, 0, 0];
+    let mut w: [u32; 12] = [10, 5, 6, 6, 3, 3, 1, 5, 3, 7, 0, 0];
     if kind == "rlnp" {
         w[10] = 1;
         w[11] = 1;
@@ -69,8 +69,16 @@ pub fn generate_c16(seed: u64, thorough: bool, known: &HashSet<String>) -> Trace
                 Op::Batch { start, vals: (0..n).map(|_| gen_value(&mut rng, &mut uniq)).collect(), rem }
             }
             7 => {
-                let n = rng.usize_below(24);
-                Op::SetMeta { bytes: rng.bytes(n) }
+                // empty, repeated and fresh values (an update equal to what a cache holds, clearing after a reopen, ...)
+                match rng.weighted(&[3, 2, 2, 5]) {
+                    0 => Op::SetMeta { bytes: Vec::new() },
+                    1 => Op::SetMeta { bytes: b"block:1234".to_vec() },
+                    2 => Op::SetMeta { bytes: vec![0u8; 3] },
+                    _ => {
+                        let n = 1 + rng.usize_below(24);
+                        Op::SetMeta { bytes: rng.bytes(n) }
+                    }
+                }
             }
             8 => Op::Flush,
             9 => Op::Reopen { flush: rng.chance(2, 3) },
